@@ -12,7 +12,7 @@ from .. import dhops, hops, nets, scops
 PID = "C06"
 RULE = (
     "case = class (H / DH / SC) + start network with numeric / string attributes + drawn stat arguments (order, degree, "
-    "weight attribute, attribute name, missing) and filter (value, mode incl. between and a callable) + up to 8 "
+    "weight attribute, attribute name, missing; single stats and multi-stat objects) and filter (value, mode incl. between and a callable) + up to 8 "
     "(thorough 14) edits; the node/edge views and every stat object are created ONCE before the history and re-read "
     "after every edit: view order, degree/size/order against brute force from members()/memberships(), handshake sums, "
     "asdict/aslist/asnumpy/aspandas/multi agreement and order, stat[id], filterby/filterby_attr, neighbors, lookup, "
